@@ -166,20 +166,20 @@ async def run_case(case):
                         window.set()
                     async with anyio.create_task_group() as ltg:
                         ltg.start_soon(registrar)
-                        await ctx.start_service_task(slow_start, f"s{sid}", teardown_action=ta)
+                        await ctx.start_service_task(slow_start, "service", teardown_action=ta)
                 elif sid % 2 and helper.get("ready"):
                     # the call is made on the owning context by a task whose current context is another
                     # one (the outer context): the task belongs to the context whose method was called
-                    helper["job"] = (ctx, make_task(d, sid, sv, stop, snapshot_bad), f"s{sid}", ta)
+                    helper["job"] = (ctx, make_task(d, sid, sv, stop, snapshot_bad), "service", ta)
                     helper["done"] = anyio.Event()
                     helper["go"].set()
                     await helper["done"].wait()
                     if helper.get("error"):
                         raise helper["error"]
                 elif sid % 2:
-                    await ctx.start_service_task(make_task(d, sid, sv, stop, snapshot_bad), f"s{sid}", teardown_action=ta)
+                    await ctx.start_service_task(make_task(d, sid, sv, stop, snapshot_bad), "service", teardown_action=ta)
                 else:
-                    await start_service_task(make_task(d, sid, sv, stop, snapshot_bad), f"s{sid}", teardown_action=ta)
+                    await start_service_task(make_task(d, sid, sv, stop, snapshot_bad), "service", teardown_action=ta)
                 ctx.add_resource(Marker("after"), f"after{sid}")       # straight after the call, no checkpoint
             # EndBlock: fall out of the loop body -> the block ends
         if case.get("block_raises"):
